@@ -86,7 +86,7 @@ struct RunLog {
     std::vector<bool> rotate_returned;            // rotation i returned normally
     bool recovered_rotate = false, recovery_attempted = false; std::string recovery_error; size_t buffered_before_fail = 0, buffered_after_fail = 0; bool block_write_failed = false; int failed_step = -1;
     std::vector<int> recs_in_failed_block;        // record ids buffered when the block write failed
-    int rotations_ok = 0; bool failed = false; bool final_rotate_ok = false;
+    int rotations_ok = 0; bool failed = false; bool final_rotate_ok = false; bool retry_rotate_ok = false; bool failed_before_final = false; size_t bytes_before_final = 0;   // uncompressed bytes the API reported for the last scenario output before the final rotation
 };
 
 // Runs a scenario in `dir`. protocol=false: plain run (C15). protocol=true: C16 driver (react to the first exception).
@@ -98,18 +98,18 @@ static void run_scenario(const Scenario& sc, const std::string& dir, bool protoc
     std::unique_ptr<CdnsExporter> e;
     try { if (sc.fd) e.reset(new CdnsExporter(fp, open_fd("outA"), comp)); else e.reset(new CdnsExporter(fp, dir + "/outA", comp)); } catch (std::exception& x) { log.events.push_back(std::string("ctor-exc:") + x.what()); return; }
     log.closed_paths.push_back(final_path("outA"));
-    int rec = 0; std::vector<int> buffered; bool failed = false;
+    int rec = 0; std::vector<int> buffered; bool failed = false; size_t cur_bytes = 0;
     for (size_t si = 0; si < sc.steps.size() && !failed; si++) {
         const Step& st = sc.steps[si];
         if (st.op == 'Q') for (int i = 0; i < st.n && !failed; i++) {
             size_t before = e->get_block_item_count();
-            try { buffered.push_back(rec); size_t r = e->buffer_qr(big_record(rec)); rec++; if (r > 0) buffered.clear(); log.events.push_back("ok"); }
+            try { buffered.push_back(rec); size_t r = e->buffer_qr(big_record(rec)); rec++; cur_bytes += r; if (r > 0) buffered.clear(); log.events.push_back("ok"); }
             catch (std::exception& x) { rec++; log.events.push_back(std::string("exc:") + x.what()); failed = true; log.block_write_failed = true; log.failed_step = (int)si; log.buffered_before_fail = before + 1; log.buffered_after_fail = e->get_block_item_count(); log.recs_in_failed_block = buffered; }
         }
         else if (st.op == 'R') {
             try {
                 if (sc.fd) e->rotate_output(open_fd(st.name), st.exp); else e->rotate_output(dir + "/" + st.name, st.exp);
-                if (st.exp) buffered.clear();
+                if (st.exp) buffered.clear(); cur_bytes = 0;
                 log.events.push_back("ok"); log.rotate_returned.push_back(true); log.rotations_ok++;
             } catch (std::exception& x) { log.events.push_back(std::string("exc:") + x.what()); log.rotate_returned.push_back(false); failed = true; log.failed_step = (int)si; }
             log.snap.resize(log.closed_paths.size()); log.snap.back() = slurp(log.closed_paths.back());
@@ -117,17 +117,21 @@ static void run_scenario(const Scenario& sc, const std::string& dir, bool protoc
         }
     }
     log.failed = failed;
+    log.failed_before_final = failed; log.bytes_before_final = cur_bytes;
     if (protocol) {
-        // documented reaction: after an exception rotate to a healthy destination without exporting, then write the block
+        // documented reaction: after an exception rotate to a healthy destination without exporting, then write the block.
+        // A rotation that throws is retried once (to a second healthy destination) - that is what "try to rotate output" means for an application.
         log.recovery_attempted = true;
-        std::string hp = dir + "/healthy";
+        auto rot = [&](const std::string& hp, bool exp) { if (sc.fd) { int fd = open(hp.c_str(), O_WRONLY | O_CREAT | O_TRUNC, 0600); e->rotate_output(fd, exp); } else e->rotate_output(hp, exp); };
         try {
-            bool exp = !failed;
-            if (sc.fd) { int fd = open(hp.c_str(), O_WRONLY | O_CREAT | O_TRUNC, 0600); e->rotate_output(fd, exp); } else e->rotate_output(hp, exp);
+            rot(dir + "/healthy", !failed);
             log.recovered_rotate = true; log.final_rotate_ok = true; log.rotate_returned.push_back(true);
-            log.snap.resize(log.closed_paths.size()); log.snap.back() = slurp(log.closed_paths.back());
-            if (failed) e->write_block();
-        } catch (std::exception& x) { log.recovery_error = x.what(); if (!log.recovered_rotate) log.rotate_returned.push_back(false); }
+        } catch (std::exception& x) {
+            log.recovery_error = x.what(); log.rotate_returned.push_back(false); failed = true;
+            try { rot(dir + "/healthy2", false); log.recovered_rotate = true; log.retry_rotate_ok = true; log.recovery_error.clear(); } catch (std::exception& y) { log.recovery_error = std::string("retry: ") + y.what(); }
+        }
+        if (log.recovered_rotate) { log.snap.resize(log.closed_paths.size()); log.snap.back() = slurp(log.closed_paths.back()); }
+        if (failed && log.recovered_rotate) { try { e->write_block(); } catch (std::exception& x) { log.recovery_error = std::string("write_block after recovery: ") + x.what(); } }
     }
     e.reset();
 }
@@ -198,14 +202,14 @@ int main(int argc, char** argv) {
                     alarm(60); g_mode = 3; g_count = 0; g_k = k; g_fault = fault; g_persistent = persist; g_fault_hit = false; RunLog l; run_scenario(sc, dir, true, l); g_mode = 0;
                     std::ofstream o(rf); o << (g_fault_hit ? 1 : 0) << "\n" << l.block_write_failed << " " << l.failed_step << " " << l.buffered_before_fail << " " << l.buffered_after_fail << " " << l.recovered_rotate << "\n";
                     o << l.rotate_returned.size(); for (bool b : l.rotate_returned) o << " " << b; o << "\n"; o << l.recs_in_failed_block.size(); for (int r : l.recs_in_failed_block) o << " " << r; o << "\n";
-                    o << l.events.size() << "\n"; for (auto& e : l.events) o << e.substr(0, 3) << "\n"; o << l.recovery_error << "\n" << l.rotations_ok << " " << l.failed << " " << l.final_rotate_ok << "\n"; o.close(); _exit(0);
+                    o << l.events.size() << "\n"; for (auto& e : l.events) o << e.substr(0, 3) << "\n"; o << l.recovery_error << "\n" << l.rotations_ok << " " << l.failed << " " << l.final_rotate_ok << " " << l.retry_rotate_ok << " " << l.failed_before_final << "\n"; o.close(); _exit(0);
                 }
                 int st = 0; waitpid(p, &st, 0);
                 R.count("traces"); std::string rep = "scenario=" + sc.name + ";k=" + std::to_string(k) + ";fault=" + std::to_string(fault) + ";persist=" + std::to_string(persist);
                 std::string sink = sc.fd ? "fd" : "name", compn = sc.comp == 0 ? "plain" : sc.comp == 1 ? "gzip" : "xz";
                 if (!WIFEXITED(st) || WEXITSTATUS(st) != 0) { R.violation("fault|driver-died|" + sink + "|" + compn, "driver process ended abnormally (status " + std::to_string(st) + ") under an injected write fault", rep); continue; }
                 std::ifstream in(rf); int hit; RunLog l; size_t n; in >> hit >> l.block_write_failed >> l.failed_step >> l.buffered_before_fail >> l.buffered_after_fail >> l.recovered_rotate; in >> n; for (size_t i = 0; i < n; i++) { bool b; in >> b; l.rotate_returned.push_back(b); }
-                in >> n; for (size_t i = 0; i < n; i++) { int r; in >> r; l.recs_in_failed_block.push_back(r); } in >> n; std::string ev; std::getline(in, ev); for (size_t i = 0; i < n; i++) { std::getline(in, ev); l.events.push_back(ev); } std::getline(in, l.recovery_error); in >> l.rotations_ok >> l.failed >> l.final_rotate_ok;
+                in >> n; for (size_t i = 0; i < n; i++) { int r; in >> r; l.recs_in_failed_block.push_back(r); } in >> n; std::string ev; std::getline(in, ev); for (size_t i = 0; i < n; i++) { std::getline(in, ev); l.events.push_back(ev); } std::getline(in, l.recovery_error); in >> l.rotations_ok >> l.failed >> l.final_rotate_ok >> l.retry_rotate_ok >> l.failed_before_final;
                 unlink(rf.c_str());
                 if (!hit) { R.violation("fault|fault-point-not-reached", "call " + std::to_string(k) + " never happened", rep); continue; }
                 R.count("nontrivial");
@@ -215,7 +219,22 @@ int main(int argc, char** argv) {
                 // fault-free run, must hold exactly the fault-free content. Outputs closed by the recovery rotation after an exception have a
                 // shorter history and an exception was already reported for them; outputs closed by destruction are exempt.
                 auto files = list_dir(dir); bool any_exc = false; for (auto& e : l.events) if (e == "exc") any_exc = true;
-                size_t comparable = (size_t)l.rotations_ok + ((!l.failed && l.final_rotate_ok) ? 1 : 0);
+                size_t comparable = (size_t)l.rotations_ok + ((!l.failed_before_final && l.final_rotate_ok) ? 1 : 0);
+                auto classify = [](const std::string& got, const std::string& want) { if (got.size() < want.size()) return "missing-bytes"; if (got.size() > want.size()) return got.compare(0, want.size(), want) == 0 ? "extra-trailing-bytes" : "duplicated-bytes"; return "corrupted-bytes"; };
+                // the final rotation threw and its retry returned normally: the retried rotate_output closed the output, so the output must not have lost bytes.
+                // Its fault-free content is known when the history up to there was fault-free: everything the exporter had accepted (returned from) before.
+                if (!l.failed_before_final && !l.final_rotate_ok && l.retry_rotate_ok && ref_log.snap.size() >= ref_log.closed_paths.size() - 1) {
+                    size_t i = ref_log.closed_paths.size() - 2 < ref_log.snap.size() ? ref_log.closed_paths.size() - 2 : 0;   // the last scenario output (before "healthy")
+                    std::string n = ref_log.closed_paths[i].substr(dir.size() + 1); std::string got = files.count(n) ? files[n] : std::string("<missing>"); const std::string& full = ref_log.snap[i];
+                    // acceptable contents: the fault-free output (the export completed before the failure), or - when the failure hit while the last block was being
+                    // exported - any complete valid file (the block is then still buffered and goes to the recovery output); anything else lost or corrupted bytes
+                    bool ok = got == full; if (!ok && !got.empty()) { std::string plain; if (decompress(sc.comp, got, plain) && !plain.empty()) { try { ref::read_file(plain); ok = true; } catch (std::exception&) {} } } if (!ok && got.empty() && full.empty()) ok = true;
+                    bool later = false; for (size_t j = i + 1; j < ref_log.closed_paths.size(); j++) if (ref_log.closed_paths[j] == ref_log.closed_paths[i]) later = true;
+                    // are the bytes of everything the exporter had accepted before the failing rotation still there? (plain outputs; a compressed stream cut short cannot be decoded)
+                    std::string cls = classify(got, full);
+                    if (sc.comp == 0) { size_t acc = std::min(ref_log.bytes_before_final, full.size()); cls = (got.size() >= acc && got.compare(0, acc, full, 0, acc) == 0) ? std::string("accepted-data-intact|tail-") + cls : std::string("accepted-data-lost|") + cls; } else cls = std::string("compressed-stream-broken|") + cls;
+                    if (!ok && !later) R.violation("fault|rotate-retry-loss|" + sink + "|" + compn + "|" + cls, fkind + " at output call " + std::to_string(k) + "/" + std::to_string(K) + ": rotate_output threw, the retried rotate_output returned normally, but " + n + " holds " + std::to_string(got.size()) + " bytes that are neither the fault-free " + std::to_string(full.size()) + " bytes nor a complete valid file (" + cls + "; " + std::to_string(ref_log.bytes_before_final) + " bytes had been accepted before)", rep);
+                }
                 for (size_t i = 0; i < comparable && i < ref_log.closed_paths.size() && i < ref_log.snap.size(); i++) {
                     bool later = false; for (size_t j = i + 1; j < ref_log.closed_paths.size(); j++) if (ref_log.closed_paths[j] == ref_log.closed_paths[i]) later = true; if (later) continue;
                     std::string n = ref_log.closed_paths[i].substr(dir.size() + 1);
